@@ -111,13 +111,18 @@ let now = ref BZ.zero
 (* per (node index, member): number of fresh heartbeat observations and instant of the last one *)
 let fresh : (int * string, int * BZ.t) Hashtbl.t = Hashtbl.create 16
 let weak_acceptance_seen = ref false
+(* KF-1 attribution: copies (node index, member) that performed a weak acceptance, or applied a node
+   delta computed from such a copy; node deltas computed from such copies *)
+let tainted : (int * string, unit) Hashtbl.t = Hashtbl.create 16
+let tainted_nds : (string, unit) Hashtbl.t = Hashtbl.create 16
+let nd_key (nd : ndelta) : string = Marshal.to_string nd []
 let catchup_seen = ref false
 let fails : string list ref = ref []
 let n_checks = ref 0
 
 let reset_case () =
   Hashtbl.reset infos; Hashtbl.reset snaps; Hashtbl.reset ledgers; Hashtbl.reset owner_hb;
-  Hashtbl.reset fresh; now := BZ.zero;
+  Hashtbl.reset fresh; now := BZ.zero; Hashtbl.reset tainted; Hashtbl.reset tainted_nds;
   weak_acceptance_seen := false; catchup_seen := false
 
 let flag (prop : string) (cls : string option) (what : string) =
@@ -155,7 +160,7 @@ let update_ledger (info : nodeinfo) (before : snap option) (after : snap) : unit
 let is_owner_known (i : id) : bool = Hashtbl.mem ledgers (token_of_id i)
 
 (* invariants that hold after every step on node [n] *)
-let common_checks (info : nodeinfo) (before : snap option) (after : snap) ~(is_local : bool) : unit =
+let common_checks ?(idx = -1) (info : nodeinfo) (before : snap option) (after : snap) ~(is_local : bool) : unit =
   check "C12" (c12_sets_ok info.self after.live after.dead) "live/dead sets overlap or self not live";
   (match before with
    | Some b ->
@@ -175,7 +180,7 @@ let common_checks (info : nodeinfo) (before : snap option) (after : snap) ~(is_l
           (match Hashtbl.find_opt owner_hb (token_of_id i) with
            | Some h -> check "C03" (not (nless h c.c_hb)) ("recorded heartbeat of " ^ token_of_id i ^ " exceeds the owner's")
            | None -> ());
-          let cls = if !weak_acceptance_seen then Some "KF-1" else None in
+          let cls = if Hashtbl.mem tainted (idx, token_of_id i) then Some "KF-1" else None in
           check "C02" ?cls (c02_ok l c) ("copy of " ^ token_of_id i ^ " is not exact up to its frontier")
         end)
       after.nodes
@@ -195,7 +200,7 @@ let on_join (idx : int) (info : nodeinfo) (obs : string) : unit =
   | None -> ()
   | Some o ->
       update_ledger info None o.snap;
-      common_checks info None o.snap ~is_local:true;
+      common_checks ~idx info None o.snap ~is_local:true;
       Hashtbl.replace snaps idx o.snap
 
 let on_local (idx : int) (obs : string) ~(is_write : bool) : unit =
@@ -219,7 +224,7 @@ let on_local (idx : int) (obs : string) ~(is_write : bool) : unit =
          | None -> ());
         update_ledger info before o.snap
       end;
-      common_checks info before o.snap ~is_local:true;
+      common_checks ~idx info before o.snap ~is_local:true;
       Hashtbl.replace snaps idx o.snap
   | _ -> ()
 
@@ -235,8 +240,14 @@ let on_proc (idx : int) (msg : message) (obs : string) : unit =
                 List.iter
                   (fun nd ->
                     match nm_get nd.d_id b.nodes with
-                    | Some c -> if weak_acceptance c nd then weak_acceptance_seen := true
-                    | None -> ())
+                    | Some c ->
+                        if weak_acceptance c nd then begin
+                          weak_acceptance_seen := true;
+                          Hashtbl.replace tainted (idx, token_of_id nd.d_id) ()
+                        end;
+                        if Hashtbl.mem tainted_nds (nd_key nd) then Hashtbl.replace tainted (idx, token_of_id nd.d_id) ()
+                    | None ->
+                        if Hashtbl.mem tainted_nds (nd_key nd) then Hashtbl.replace tainted (idx, token_of_id nd.d_id) ())
                   x.nds
             | None -> ());
            (match own_copy_of b info.self, own_copy_of o.snap info.self with
@@ -279,6 +290,9 @@ let on_proc (idx : int) (msg : message) (obs : string) : unit =
             | _ -> ());
            (match delta_of_message r with
             | Some x ->
+                List.iter
+                  (fun nd -> if Hashtbl.mem tainted (idx, token_of_id nd.d_id) then Hashtbl.replace tainted_nds (nd_key nd) ())
+                  x.nds;
                 check "C07" (c07_delta_ok o.snap.nodes o.snap.sched x)
                   "reply delta is not the version-prefix of the sender's stale entries (or names a scheduled member)"
             | None -> ())
@@ -303,7 +317,7 @@ let on_proc (idx : int) (msg : message) (obs : string) : unit =
                    | _ -> ())
                dg
        | _ -> ());
-      common_checks info before o.snap ~is_local:false;
+      common_checks ~idx info before o.snap ~is_local:false;
       Hashtbl.replace snaps idx o.snap
   | _ -> ()
 
@@ -356,7 +370,7 @@ let on_eval (idx : int) (obs : string) : unit =
                end)
              b.nodes
        | None -> ());
-      common_checks info before s ~is_local:false;
+      common_checks ~idx info before s ~is_local:false;
       Hashtbl.replace snaps idx s
   | _ -> ()
 
